@@ -150,6 +150,7 @@ NEEDS = {
  'C14j': '`E and false` / `E or true` (also via const variables) with a call-free E containing / % or an index that faults at run time',
  'C15j': '--unchecked: a string literal / const string element as the right operand with a computed left operand',
  'C16j': 'a while(true) whose body cannot complete and whose only continue sits inside a bare nested block, last in its function',
+ 'C17j': 'a string constant whose escaped text exceeds 72 characters with a \\xNN escape straddling a wrap position (.ascii lines wrapped)',
  'C18j': '--lint with `all_is_broken(); return <value>;` at the end of a block (statement kept only when linting)',
 }
 ALSO = {'C01d': ['C18'], 'C04c': ['C01'], 'C04d': ['C13'], 'C14c': [], 'C13c': ['C10'], 'C16d': ['C03'], 'C17d': ['C01'], 'C09c': ['C02'], 'C09d': ['C01'], 'C18b': ['C01'], 'C17': ['C04'], 'C15': ['C02'], 'C09b': ['C14'], 'C07b': [], 'C16': ['C03']}
